@@ -77,6 +77,7 @@ type Grammar struct {
 	Seps          []string // separators (ignored-token text) used between tokens; default " "
 	HeaderImports []string // extra import lines of the file header, e.g. `"fmt"`
 	RawUsesToken  bool     // a raw action uses a $T form: the header must import the token package
+	GoccOnly      bool     // only used by the checks that run gocc itself (C09, C11), not by the parser drivers
 	Optional      bool     // seeded random grammar: dropped (not failed) if gocc refuses it
 	NoCompile     bool     // header/actions are not valid Go in the harness module (text taken from elsewhere)
 	RawText       string   // if set, the grammar is this text (no IR); only gocc-level checks use it
